@@ -1614,6 +1614,97 @@ impl World {
 
     // -------------------------------------------------------------- fork / eq / rebuild
 
+    /// A chain built by `from_fen` from text with *stale fields* - castling rights whose king or
+    /// rook is not at home, an en-passant field nothing can use - that the validation gate
+    /// rewrites: an unusual but legal provenance (seeded changes S-C13-22 and S-C17-22 record the
+    /// start position as written instead of as validated). Only texts that `Board::from_fen`
+    /// brings back to exactly the run's start position are used, so the game is the same game.
+    /// Judged on the fresh object alone and by the statements' own words: C13 - with no move
+    /// accepted the current position *is* the recorded start, and the chain equals
+    /// `MoveChain::new` of the same start; C17 - the UCI list replayed from `startpos()` rebuilds
+    /// an equal chain. The run's own chain is not replaced.
+    fn stale_fen_construct_check(&mut self, start: &Board) -> Result<(), Violation> {
+        if !self.on(C13) && !self.on(C17) {
+            return Ok(());
+        }
+        let clean = pos_of(start);
+        let clean_text = clean.to_fen();
+        let file = clean.sq.iter().map(|&c| c as usize).sum::<usize>() % 8;
+        let mark = Some(((if clean.white { 3 } else { 4 }) * 8 + file) as u8);
+        let mut both = clean.clone();
+        both.castling = [true; 4];
+        let rights_only = both.clone();
+        if both.ep.is_none() {
+            both.ep = mark;
+        }
+        let mut ep_only = clean.clone();
+        if ep_only.ep.is_none() {
+            ep_only.ep = mark;
+        }
+        for cand in [both, rights_only, ep_only] {
+            let text = cand.to_fen();
+            if text == clean_text {
+                continue;
+            }
+            match Board::from_fen(&text) {
+                Ok(b) if *b.raw() == self.rc.start => {}
+                _ => continue, // refused, or the extra fields meant something: another game
+            }
+            let fresh = match MoveChain::from_fen(&text) {
+                Ok(c) => c,
+                Err(_) => continue,
+            };
+            self.stats.hit("probe.chain-from-fen-with-stale-fields");
+            if self.on(C13) {
+                if *fresh.startpos() != *fresh.last().raw() {
+                    return Err(self.fail(
+                        C13,
+                        "refinement",
+                        format!(
+                            "MoveChain::from_fen({:?}): no move was accepted, yet the recorded start position {} is not the current position {}",
+                            text,
+                            pos_of_raw(fresh.startpos()).to_fen(),
+                            pos_of(fresh.last()).to_fen()
+                        ),
+                    ));
+                }
+                let plain = MoveChain::new(start.clone());
+                if !(fresh == plain) || fresh != plain {
+                    return Err(self.fail(
+                        C13,
+                        "equality",
+                        format!("MoveChain::from_fen({:?}) and MoveChain::new of the board the same text parses to have equal start positions, move lists and outcomes but do not compare equal", text),
+                    ));
+                }
+            }
+            if self.on(C17) {
+                let uci = fresh.uci().to_string();
+                let rebuilt = Board::try_from(*fresh.startpos())
+                    .map_err(|e| e.to_string())
+                    .and_then(|b| MoveChain::from_uci_list(b, &uci).map_err(|e| e.to_string()));
+                match rebuilt {
+                    Ok(r) if r == fresh => {}
+                    Ok(_) => {
+                        return Err(self.fail(
+                            C17,
+                            "uci-roundtrip",
+                            format!("chain built by MoveChain::from_fen({:?}): its UCI list {:?} replayed from startpos() rebuilds a chain that does not compare equal", text, uci),
+                        ))
+                    }
+                    Err(e) => {
+                        return Err(self.fail(
+                            C17,
+                            "uci-roundtrip",
+                            format!("chain built by MoveChain::from_fen({:?}): its UCI list {:?} does not replay from startpos(): {}", text, uci, e),
+                        ))
+                    }
+                }
+            }
+            break;
+        }
+        Ok(())
+    }
+
     /// The same empty chain through another constructor; everything observable must be the
     /// same whichever constructor produced the object.
     fn op_construct(&mut self, k: u8) -> R {
@@ -1625,6 +1716,9 @@ impl World {
             Err(_) => return Ok(Exec::Skipped),
         };
         let is_initial = self.rc.start == RawBoard::initial();
+        if k % 5 == 1 {
+            self.stale_fen_construct_check(&start)?;
+        }
         let fresh: MoveChain = match k % 5 {
             0 => MoveChain::new(start.clone()),
             1 => match MoveChain::from_fen(&pos_of(&start).to_fen()) {
